@@ -47,10 +47,24 @@ UNIVERSE = [
 ]
 # known classes (each makes an item ill-formed for the theorem; Coq decides membership)
 KF_UNIVERSE = [
-    dict(ident="Doc", imports=[], block="/** block doc\n\nwith a blank line */\nexport type Doc = null;", cls="doc_blank_line"),
     dict(ident="Key", imports=[], block="export type Key = { \n/** export type Aaa in a field doc */\nk: null, };", cls="export_type_in_body"),
     dict(ident="Imp", imports=[("./x", ["from"])], block="export type Imp = from;", cls="import_named_from"),
 ]
+
+
+def derived_items(exe):
+    """file-mates whose text is what the REAL derive writes for documented types of harness/rt/universe.rs
+    (documentation with empty lines: block comment, `#[doc]` values ending / beginning with newlines, at fields)"""
+    out = []
+    ans = harness.rt_run(exe, [["cwd", "/tmp/v"], ["env", "-"], ["docinfo"]])[2]
+    for ident, text in [x.split("\x02", 1) for x in ans[1:]]:
+        if text.startswith("\x00") or not text.startswith(note()):
+            raise vlib.HarnessError("docinfo: export_to_string of %s failed: %r" % (ident, text[:200]))
+        rest = text[len(note()):]
+        head, block = rest.split("\n\n", 1) if rest.startswith("import") else ("", rest[1:] if rest.startswith("\n") else rest)
+        imports = [(m.group(2), m.group(1).split(", ")) for m in re.finditer(r'import type \{ (.*?) \} from "(.*?)";', head)]
+        out.append(dict(ident=ident, imports=imports, block=block[:-1] if block.endswith("\n") else block, derived=True, text=text))
+    return out
 
 
 def coq_item(it):
@@ -89,20 +103,33 @@ def run(ctx):
     proof = ctx.prove()
     os.makedirs(os.path.dirname(FILE), exist_ok=True)
     rng = random.Random(ctx.seed)
-    items = UNIVERSE + KF_UNIVERSE
+    exe = harness.rt(False)
+    os.makedirs("/tmp/v", exist_ok=True)
+    derived = derived_items(exe)
+    for it in derived:
+        if item_text(it) != it.pop("text"):
+            raise vlib.HarnessError("derived item %s does not re-render from (imports, block)" % it["ident"])
+    uni = UNIVERSE + derived
+    items = uni + KF_UNIVERSE
     nmax = 4 if ctx.quick else 5
     # all permutations of all subsets (hence all prefixes) up to nmax of the well-formed universe;
     # plus histories with repetitions (idempotence) and histories touching the known classes
     hs = []
-    base = list(range(len(UNIVERSE)))
+    base = list(range(len(uni)))
+    hand = list(range(len(UNIVERSE)))
     for k in range(1, nmax + 1):
-        for perm in itertools.permutations(base, k):
+        for perm in itertools.permutations(hand, k):
             hs.append(list(perm))
+    # the derived (documented) file-mates: every permutation of every subset of size <= nmax - 1 that holds one of them
+    for k in range(1, nmax):
+        for perm in itertools.permutations(base, k):
+            if any(i >= len(UNIVERSE) for i in perm):
+                hs.append(list(perm))
     for _ in range(300 if ctx.quick else 3000):
         k = rng.randint(2, 7)
         hs.append([rng.choice(base) for _ in range(k)])  # with repetitions
     kf_hs = []
-    for j in range(len(UNIVERSE), len(items)):
+    for j in range(len(uni), len(items)):
         for other in base[:5]:
             for third in base[3:6]:
                 kf_hs += [[j, other, third], [other, j, third], [third, other, j]]
@@ -113,12 +140,18 @@ def run(ctx):
         hs, kf_hs = hs_all, []
 
     # implementation: real export_and_merge on a real file
-    exe = harness.rt(False)
-    reqs = [["rawitem", it["ident"], item_text(it)] for it in items]
+    regs = [["rawitem", it["ident"], item_text(it)] for it in items]
     stale = "stale content left by an earlier run; must never leak " * 30
-    for n, h in enumerate(hs_all):
-        reqs.append(["rawhist", FILE, stale if n % 2 else "-", ",".join(map(str, h))])
-    ans = harness.rt_run(exe, reqs)[len(items):]
+    reqs = [["rawhist", FILE, stale if n % 2 else "-", ",".join(map(str, h))] for n, h in enumerate(hs_all)]
+    # a panic inside export_and_merge poisons the registry lock for the rest of the process: go on in a fresh one
+    ans, restarts = [], 0
+    while len(ans) < len(reqs) and restarts <= 200:
+        got = harness.rt_run(exe, regs + reqs[len(ans):])[len(items):]
+        k = next((i for i, a in enumerate(got) if a[0] == "OK" and "P" in a[1]), None)
+        ans += got if k is None else got[:k + 1]
+        restarts += k is not None
+    if len(ans) < len(reqs):
+        hs_all = hs_all[:len(ans)]
     impl = []
     for a in ans:
         if a[0] != "OK":
@@ -215,7 +248,7 @@ def run(ctx):
     # the pure merge function on a malformed stream: panics must be predicted as panics
     mal = malformed(ctx, rng, exe, items)
     # real threads
-    thr = threads(ctx, rng, exe, items)
+    thr = threads(ctx, rng, exe, items, len(uni))
 
     ctx.finish_proof()
     ctx.coverage.update({
@@ -223,7 +256,8 @@ def run(ctx):
         "distinct_nontrivial": len({tuple(h) for h in hs_all if len(set(h)) >= 2}),
         "traces_validated_against_impl": thr["traces_valid"],
         "rule": "all permutations of all subsets (hence all prefixes) of size <= %d of an %d-item universe sharing one file (doc comments, multi-line declarations, documentation quoting a file-mate's `export type <Name> `, prefix names A/Ab/A1, a generic Foo<T> next to Foo2 (digits sort below `<`), generic keys, overlapping import groups, non-ASCII), each run through the real export_and_merge on a real file (every second one over stale content), plus %d random histories with repetitions, plus histories touching the %d known classes; non-trivial = at least two distinct items (a merge happened)" % (
-            nmax, len(UNIVERSE), 300 if ctx.quick else 3000, len(KF_UNIVERSE)),
+            nmax, len(uni), 300 if ctx.quick else 3000, len(KF_UNIVERSE)) +
+            "; %d of the items are the REAL export_to_string() texts of documented derived types (harness/rt/universe.rs DocBlank, DocNl: block comment with an empty line at the container and at a field, `#[doc]` values ending / beginning with newlines or made of newlines), in every permutation of every subset of size <= %d holding one of them" % (len(derived), nmax - 1),
         "samples": [dict(history=hs_all[j], idents=[items[i]["ident"] for i in hs_all[j]], final_file=impl[j][1:]) for j in (len(hs_all) // 3,)],
         "correspondence": {"histories": len(hs_all), "digest_chunks": nchunks, "suspects": len(suspects), "confirmed_breaks": len(corr_breaks)},
         "oracle": {"sets_with_several_histories": n_sets_multi, "histories_meeting_theorem_hypotheses": n_hyp,
@@ -282,10 +316,10 @@ Eval vm_compute in map (fun ab => dg_list [can (merge (fst ab) (snd ab))]) %s.
     return {"pairs": len(pairs), "panics": sum(1 for o in impl if o == "P"), "disagreements": len(bad)}
 
 
-def threads(ctx, rng, exe, items):
+def threads(ctx, rng, exe, items, nuni):
     """the same sets exported from real concurrent threads, perturbed at the yield points"""
     runs = 120 if ctx.quick else 1500
-    base = list(range(len(UNIVERSE)))
+    base = list(range(nuni))
     reqs, sets = [], []
     for r in range(runs):
         k = rng.randint(2, 6)
@@ -299,6 +333,10 @@ def threads(ctx, rng, exe, items):
     valid, bad_trace, bad_content = 0, [], []
     orders = set()
     for s, a, rf in zip(sets, ans, ref):
+        if a[0] != "OK" or rf[0] != "OK" or len(a) < 4:
+            # a panic in an earlier run poisoned the registry lock of the harness process
+            bad_content.append(dict(set=[items[i]["ident"] for i in s], steps="P", content=" ".join(a[:2]), serial=" ".join(rf[:3]), trace=""))
+            continue
         steps, content, trace = a[1], a[2], a[3]
         ev = [e.rsplit(":", 1) for e in trace.split(",") if e]
         crit = [(n, int(k)) for n, k in ev if int(k) >= 1]
